@@ -365,6 +365,41 @@ def run(report):
             report.failure("c05-override-not-recognised", "the leading word %r is NAME=VALUE but was not taken as an override" % v[0],
                            {"op": "positional", "words": v, "observed": got})
             break
+    # ArgumentParser::parse_arguments in-process (hook `group`) against Just.Args.parseArguments: root-only justfiles with
+    # three recipes and an alias, every vector of up to four words over recipe names, the alias, plain and empty words
+    GW = ["r1", "r2", "r3", "al", "x", "y", "", "r1 "]
+    gvecs = [list(v) for k in range(0, 5) for v in itertools.product(GW, repeat=k)]
+    grng = C.case_rng(report.seed, 0, "c05-group")
+    gsigs = grng.sample(sigs, 12 if tier == "quick" else 60)
+    KIND = {"unknownRecipe": "UnknownRecipe", "argCount": "ArgumentCountMismatch", "defaultRequiresArgs": "DefaultRecipeRequiresArguments",
+            "noRecipes": "NoRecipes", "noDefault": "NoDefaultRecipe", "unknownSubmodule": "UnknownSubmodule", "expectedSubmodule": "ExpectedSubmoduleButFoundRecipe"}
+    n_group = 0
+    for sig in gsigs:
+        src = recipe_text("r1", "r1", sig) + "\n" + recipe_text("r2", "r2", ["req"]) + "\n" + recipe_text("r3", "r3", ["star"]) + "\nalias al := r1\n"
+        src = src.replace("`[BD]`", "'bt'")
+        sg = {"r1": {"id": "r1", "name": "r1", "params": [param_model(k, i) for i, k in enumerate(sig)]},
+              "r2": {"id": "r2", "name": "r2", "params": [param_model("req", 0)]}, "r3": {"id": "r3", "name": "r3", "params": [param_model("star", 0)]}}
+        root = {"recipes": [["r1", sg["r1"]], ["r2", sg["r2"]], ["r3", sg["r3"]], ["al", sg["r1"]]], "modules": [], "default": sg["r1"], "hasRecipes": True}
+        gj = jv.pbatch([{"op": "group", "src": src, "words": v} for v in gvecs], chunk=5000)
+        gm = drv.pbatch([{"op": "args", "root": root, "words": v, "variables": []} for v in gvecs], chunk=2500)
+        for v, jr, mr in zip(gvecs, gj, gm):
+            n_group += 1
+            if "fatal" in mr:
+                raise C.BuildError("model driver: " + mr["fatal"])
+            if "groups" in jr:
+                got = [[g["path"][-1], g["arguments"]] for g in jr["groups"]]
+                want = [[g["id"], g["args"]] for g in mr["groups"]] if "groups" in mr else {"error": mr.get("error")}
+            else:
+                got = {"error": jr.get("error")}
+                want = {"error": KIND.get(model_error(mr["error"]), model_error(mr["error"]))} if "error" in mr else [[g["id"], g["args"]] for g in mr["groups"]]
+            if got != want:
+                report.failure("c05-model-group", "ArgumentParser::parse_arguments and Just.Args.parseArguments group %r differently" % (v,),
+                               {"correspondence": "C05 parse_arguments vs Just.Args.parseArguments", "src": src, "words": v, "impl": got, "model": want}, no_input=True)
+                break
+        else:
+            continue
+        break
+    stats["grouping_vectors_in_process"] = n_group
     report.coverage.update({
         "evaluations": len(cases),
         "distinct_nontrivial": len(distinct),
